@@ -50,15 +50,17 @@ class _SQLLineageConfigLoader:
             super().__setattr__(key, value)
 
     def __call__(self, *args, **kwargs):
-        if self.get_ident() not in self._thread_config.keys():
-            self._thread_config[self.get_ident()] = {}
+        thread_id = self.get_ident()
+        if thread_id in self._thread_in_context_manager:
+            raise ConfigException("SQLLineageConfig context manager is not reentrant")
+        # validate and parse everything first, so that a rejected call leaves no trace
+        thread_config = {}
         for key, value in kwargs.items():
             if key in self.config.keys():
-                self._thread_config[self.get_ident()][key] = self.parse_value(
-                    value, self.config[key][0]
-                )
+                thread_config[key] = self.parse_value(value, self.config[key][0])
             else:
                 raise ConfigException(f"Invalid config key: {key}")
+        self._thread_config.setdefault(thread_id, {}).update(thread_config)
         return self
 
     def __enter__(self):
